@@ -34,6 +34,7 @@ type kop struct {
 
 type c20Prog struct {
 	Instances int   `json:"instances"`
+	OneIDOpts bool  `json:"oneIdOpts,omitempty"` // the caller keeps ONE CreateIdentityOptions value for every identity it creates - also for identities of another keystore over another datastore
 	Plain     bool  `json:"plain,omitempty"` // the shared datastore does not offer batches (default: it does, like the usual ones)
 	Ops       []kop `json:"ops"`
 }
@@ -66,6 +67,7 @@ func genC20(t *rapid.T) c20Prog {
 		}
 		p.Ops = append(p.Ops, o)
 	}
+	p.OneIDOpts = rapid.IntRange(0, 2).Draw(t, "oneIdOpts") == 0
 	return p
 }
 
@@ -98,6 +100,8 @@ func runC20(tb ev.TB, p c20Prog) ev.Result {
 	createGen := map[string]int{}
 	sinceCreate := map[string]int{} // keys created on the creator instance since id was created (eviction estimate)
 	burstSeq := 0
+	oneIDOpts := &idp.CreateIdentityOptions{}
+	var asideKS *keystore.Keystore
 	var sharedProvider idp.Interface // the provider object of the first identity created in this program
 	sharedFor := ""
 	nt := false
@@ -251,9 +255,28 @@ func runC20(tb ev.TB, p c20Prog) ev.Result {
 			burstSeq++
 		case "identity":
 			classes["identity"] = true
-			a, err := idp.CreateIdentity(ctx, &idp.CreateIdentityOptions{Keystore: ks, ID: id, Type: "orbitdb"})
+			aOpts := &idp.CreateIdentityOptions{Keystore: ks, ID: id, Type: "orbitdb"}
+			if p.OneIDOpts {
+				oneIDOpts.Keystore, oneIDOpts.ID, oneIDOpts.Type = ks, id, "orbitdb"
+				aOpts = oneIDOpts
+			}
+			a, err := idp.CreateIdentity(ctx, aOpts)
 			if err != nil {
 				tb.Fatalf("op #%d CreateIdentity(%q): %v", i, id, err)
+			}
+			if p.OneIDOpts {
+				// the same options value then serves for an identity that lives elsewhere (another keystore over another
+				// datastore); identity a was created and is none of that value's business any more
+				classes["one-CreateIdentityOptions-value"] = true
+				if asideKS == nil {
+					if asideKS, err = keystore.NewKeystore(dssync.MutexWrap(ds.NewMapDatastore())); err != nil {
+						tb.Fatalf("harness: %v", err)
+					}
+				}
+				oneIDOpts.Keystore, oneIDOpts.ID = asideKS, fmt.Sprintf("elsewhere-%d", i)
+				if _, err := idp.CreateIdentity(ctx, oneIDOpts); err != nil {
+					tb.Fatalf("op #%d CreateIdentity for another keystore with the caller's one options value: %v", i, err)
+				}
 			}
 			// CreateIdentity creates the two keys it needs when absent: reflect that in the model
 			for _, name := range []string{id, a.ID} {
